@@ -979,6 +979,10 @@ def main(argv):
                 if lvl[inner] > lvl[outer]:
                     fam["parens_mixed_%s_%s" % (outer, inner)] = nest("(c %s b%%(k)d %s %%(e)s)" % (outer, inner))
                     fam["parens_mixed_left_%s_%s" % (outer, inner)] = nest("(%%(e)s %s b%%(k)d %s c)" % (inner, outer))
+        # nests of intrinsic calls around an argument that contains '=' (a comparison, a keyword argument, a literal)
+        for tag, inner in (("eq", "merge(1, 0, a == b)"), ("le", "count(a <= b)"), ("kw", "sum(v, dim=1)"), ("lit", "len('a=b')"), ("plain", "merge(1, 0, a < b)")):
+            fam["nested_intrinsic_calls_" + tag] = (lambda n, inner=inner: assign("abs(" * n + inner + ")" * n))
+            fam["nested_intrinsic_two_args_" + tag] = (lambda n, inner=inner: assign("max(0, " * n + inner + ")" * n))
         fam["parens_unary_not"] = nest("(.not. %(e)s)")
         fam["parens_unary_minus"] = nest("(- %(e)s)")
         fam["nested_calls"] = nest("f(%(e)s)")
@@ -995,6 +999,8 @@ def main(argv):
         for name, gen in fam.items():
             sizes = sizes0
             if name.startswith(("parens_", "chain_")):
+                sizes = [3, 6, 12] if tier == "quick" else [3, 6, 12, 24]
+            elif name.startswith("nested_intrinsic_"):
                 sizes = [3, 6, 12] if tier == "quick" else [3, 6, 12, 24]
             elif name.startswith("nested_") and name not in ("nested_if", "nested_do"):
                 sizes = [2, 4, 8]               # known to be exponential: larger sizes only cost time
